@@ -118,3 +118,15 @@ Proof.
   - intros; split; reflexivity.
 Qed.
 Print Assumptions integrator_model_is_what_the_source_says.
+
+(* WHAT THE REGENERATED CODE DOES: the pair statement of C03 about the translated block itself (pair1_dyn_gen at R; convertible with
+   the model): the new total momentum of a coupled pair is the old total plus twice the common increment computed from the averages. *)
+Theorem regenerated_pair_total_momentum : forall dt damping m1 m2 (n1 n2 : inodeR),
+  let r := pair1_dyn_gen NumR dt damping m1 m2 n1 n2 in
+  let avg_p := (n_mom n1 +v n_mom n2) *v half NumR in
+  let avg_f := (n_force n1 +v n_force n2) *v half NumR in
+  let avg_m := (m1 + m2) * half NumR in
+  n_mom (fst r) +v n_mom (snd r) =
+  (n_mom n1 +v n_mom n2) +v ((avg_f -v avg_p *v (damping / avg_m)) *v dt) *v 2.
+Proof. exact pair_total_momentum. Qed.
+Print Assumptions regenerated_pair_total_momentum.
